@@ -15,3 +15,4 @@ INVARIANT RaisedUntouched
 INVARIANT ReturnedPublished
 INVARIANT FaultRaises
 INVARIANT NoStuck
+INVARIANT StaleRemovedWhenReached
